@@ -100,6 +100,7 @@ type lexer struct {
 	last      atomic.Value
 	emitted   bool
 	lead      bool
+	start     bool
 }
 
 func newLexer(env *interp.ExecEnv, name string, r io.RuneScanner) *lexer {
@@ -151,17 +152,26 @@ func (l *lexer) run() {
 
 func (l *lexer) lexPipeline() action {
 	l.lead = !l.emitted
-	tok := l.scanRawToken()
+	tok := l.scanCmdStart()
 	l.lead = false
 	if l.tr(tok) == Bang {
 		l.emit(Bang)
-		tok = l.scanRawToken()
+		tok = l.scanCmdStart()
 	}
 	return l.lexCmd(tok)
 }
 
 func (l *lexer) lexNextCmd() action {
-	return l.lexCmd(l.scanRawToken())
+	return l.lexCmd(l.scanCmdStart())
+}
+
+// scanCmdStart scans the first token of a command, where "((" begins
+// an arithmetic evaluation.
+func (l *lexer) scanCmdStart() int {
+	l.start = true
+	tok := l.scanRawToken()
+	l.start = false
+	return tok
 }
 
 func (l *lexer) lexCmd(tok int) action {
@@ -1038,12 +1048,15 @@ func (l *lexer) scanOp(r rune) (op int) {
 		}
 	case '(':
 		op = '('
-		l.paren++
-		if l.paren == 1 {
+		switch {
+		case l.arithExpr:
+			// parentheses of the arithmetic expression
+			l.paren++
+		case l.start:
 			if r, err := l.read(); err == nil {
 				if r == '(' {
 					op = LAE
-					l.paren++
+					l.paren = 2
 					l.arithExpr = true
 				} else {
 					l.unread()
@@ -1052,15 +1065,17 @@ func (l *lexer) scanOp(r rune) (op int) {
 		}
 	case ')':
 		op = ')'
-		l.paren--
-		if l.arithExpr && l.paren == 1 {
-			if r, err := l.read(); err == nil {
-				if r == ')' {
-					op = RAE
-					l.paren--
-					l.arithExpr = false
-				} else {
-					l.unread()
+		if l.arithExpr {
+			l.paren--
+			if l.paren == 1 {
+				if r, err := l.read(); err == nil {
+					if r == ')' {
+						op = RAE
+						l.paren = 0
+						l.arithExpr = false
+					} else {
+						l.unread()
+					}
 				}
 			}
 		}
